@@ -27,6 +27,17 @@ def _extended_upper():
     return m, [(0, None), (0, 6), (0, None)], [20.0, 0.0, 0.0], 0.0, 6.0
 
 
+def _all_states_added_later():
+    """a model constructed with no states at all; every state comes in through the state_list setter (default limits)"""
+    import pg
+    m = pg.model(state=[], param=["k", "g"])
+    m.state_list = ["A", "Z"]
+    m.add_event(pg.Event(rate="k*A", transition_list=[pg.Transition(origin="A", destination="Z", transition_type="T")]))
+    m.add_event(pg.Event(rate="g", transition_list=[pg.Transition(origin="A", transition_type="D", magnitude="2")]))
+    m.parameters = [("k", 0.05), ("g", 5.0)]
+    return m, [(0, None), (0, None)], [7.0, 0.0], 0.0, 6.0
+
+
 def _late_start():
     """initial time 2: an output grid that starts before it holds the initial state there"""
     import pg
@@ -37,7 +48,7 @@ def _late_start():
     return m, [(0, 2000), (0, 600)], [1500.0, 100.0], 2.0, 8.0
 
 
-SCENARIOS = {"state-added-after-construction": _extended, "state-added-after-construction/upper": _extended_upper,
+SCENARIOS = {"all-states-added-after-construction": _all_states_added_later, "state-added-after-construction": _extended, "state-added-after-construction/upper": _extended_upper,
              "grid-before-initial-time": _late_start}
 
 
